@@ -1,5 +1,6 @@
 import PercevalModel.Proto
 import PercevalModel.Model.C06
+import PercevalModel.Model.C06Proc
 
 open Lean PM PM.Proto PM.C06
 
@@ -61,8 +62,78 @@ def nearGen (P : Params) (θ : ℚ) : List ℕ → ℕ → Bool
   | n :: ns, t =>
     (!(shortcut P n) && nearLtp θ (photonDists P n t)) || nearGen P θ ns (probDistTag P n t)
 
+/-- a `NoiseModel` value (what the harness puts into a Python `NoiseModel` object) -/
+def parseNoiseVal (j : Json) : Except String NoiseVal := do
+  let beta ← ratOf j "beta"
+  let g2 ← ratOf j "g2"
+  let q ← ratOf j "q"
+  let ind ← ratOf j "ind"
+  let r ← ratOf j "r"
+  let tr ← ratOf j "transmittance"
+  let model ← strOf j "model"
+  if tr < 0 ∨ 1 < tr ∨ beta < 0 ∨ 1 < beta ∨ g2 < 0 ∨ 1 < g2 ∨ ind < 0 ∨ 1 < ind then
+    throw "ValueError"
+  let gd ← (if model = "distinguishable" then pure true
+            else if model = "indistinguishable" then pure false else throw "bad-model")
+  let v : NoiseVal := { brightness := beta, g2 := g2, q := q, ind := ind, r := r, transmittance := tr,
+                        g2dist := gd }
+  if !v.params.admissible then throw "AssertionError"
+  if !v.params.rootsOk then throw "bad-roots"
+  return v
+
+def nearGenAll (P : Params) (thr : ℚ) (ns : List ℕ) (t : ℕ) : Bool :=
+  let θ := max thr minP
+  nearGen P θ ns t || nearLtp θ ((modeDists P θ ns t).map lift)
+
+def parseProcOp (j : Json) : Except String ProcOp := do
+  let op ← strOf j "op"
+  match op with
+  | "mutate" => return .mutate (← natOf j "id") (← parseNoiseVal (← j.getObjVal? "P"))
+  | "assign" => return .assign (← natOf j "id")
+  | "input" => return .input (← natList (← j.getObjVal? "ns"))
+  | "read" => return .read
+  | "source" => return .useSource (← natList (← j.getObjVal? "ns")) (← ratOf j "thr")
+  | "other" => return .other
+  | _ => throw "bad-step"
+
+/-- run a history of the processor model; one output per step: `null`, or the distribution the step
+returns with the near-threshold flag of the moment it was generated and the ghost flag `dirty` -/
+def runHist (j : Json) : Except String Json := do
+  let objs ← (← (← j.getObjVal? "objs").getArr?).toList.mapM parseNoiseVal
+  let ref ← natOf j "init"
+  if objs.length ≤ ref then throw "bad-ref"
+  let dflt : NoiseVal := { brightness := 1, g2 := 0, q := 1, ind := 1, r := 1, transmittance := 1,
+                           g2dist := true }
+  let ops ← (← (← j.getObjVal? "steps").getArr?).toList.mapM parseProcOp
+  let mut s := Proc.init (fun i => objs.getD i dflt) ref
+  let mut cacheNear := false
+  let mut outs : Array Json := #[]
+  for op in ops do
+    let near :=
+      match op with
+      | .input ns => nearGenAll s.src 0 ns s.tag
+      | .read => (match s.cache, s.input with
+                  | some _, _ => cacheNear
+                  | none, some ns => nearGenAll s.src 0 ns s.tag
+                  | none, none => false)
+      | .useSource ns thr => nearGenAll s.src thr ns s.tag
+      | _ => false
+    match op with
+    | .input _ => cacheNear := near
+    | .read => cacheNear := near
+    | .assign _ => cacheNear := false
+    | _ => pure ()
+    let (s', o) := procStep s op
+    outs := outs.push (match o with
+      | none => Json.mkObj [("dirty", toJson s'.dirty)]
+      | some d => Json.mkObj [("dist", distJ stateJ d), ("near", toJson near),
+                              ("dirty", toJson s'.dirty)])
+    s := s'
+  return Json.mkObj [("outs", Json.arr outs)]
+
 def handleE (j : Json) : Except String Json := do
   let op ← strOf j "op"
+  if op = "hist" then return ← runHist j
   let P ← parseParams (← j.getObjVal? "P")
   match op with
   | "probs" =>
